@@ -70,10 +70,11 @@ class WorldC11(World):
     PROP = 'C11'
     RUNS = {'quick': 2500, 'thorough': 60000}
     WALL = {'quick': 50, 'thorough': 560}
-    STATE_CHANGING = ('build', 'cycle', 'decode_twice', 'edit')
+    STATE_CHANGING = ('build', 'cycle', 'decode_twice', 'edit', 'cold_decode')
     STATE_RULE = 'per object: (class, nesting depth, number of completed encode/decode cycles bucket)'
     PROBES = ('decode-same-dict-twice', 'cycles>=3', 'nested-depth>=3', 'shared-species-in-reactions', 'statmech-with-references',
-              'statmech-with-misc-models', 'empirical-with-cov-model', 'edit-then-encode', 'via-text', 'via-dict', 'nasa9-segments-not-ascending', 'scrambled-first-decode') + \
+              'statmech-with-misc-models', 'empirical-with-cov-model', 'edit-then-encode', 'via-text', 'via-dict', 'nasa9-segments-not-ascending', 'scrambled-first-decode',
+              'references-offsets-cleared', 'decode-in-a-fresh-interpreter') + \
         tuple('class-' + k for k in ALL_KINDS)
     REAL = ('pmutt.io.json (pmuttEncoder, json_to_pmutt, type_to_class, remove_class)', 'to_dict/from_dict of every class built',
             'json module', 'every get_* getter of the built objects')
@@ -96,7 +97,7 @@ class WorldC11(World):
                  'all': ALL_KINDS}[fam]
         return {'n_clients': rng.randint(1, 3), 'kinds': [k for k in kinds if self.ctx_allow_kind(k)],
                 'max_objects': rng.randint(1, 4), 'lsr': fam in ('leaf', 'all'), 'w_cycle': rng.choice([2, 3]), 'w_twice': rng.choice([1, 2]),
-                'w_edit': rng.choice([0, 1])}
+                'w_edit': rng.choice([0, 1]), 'cold': rng.random() < (0.06 if tier == 'thorough' else 0.03)}
 
     def ctx_allow_kind(self, k):
         return k != 'LSR'      # refined per run in gen_op (known-finding trigger C11-class-LSR)
@@ -110,6 +111,7 @@ class WorldC11(World):
         self.np, self.pj = np, pj
         self.obj = {}      # id -> current real object
         self.meta = {}     # id -> {'kind', 'desc', 'cycles', 'depth'}
+        self.cold_done = False
 
     # descriptors ----------------------------------------------------------
     def gen_desc(self, rng, kind, depth=0):
@@ -249,6 +251,10 @@ class WorldC11(World):
         k = rng.choice(sorted(self.obj))
         kinds = ['cycle'] * sw['w_cycle'] + ['decode_twice'] * sw['w_twice'] + ['edit'] * sw['w_edit']
         kind = rng.choice(kinds)
+        if sw.get('cold') and not self.cold_done and rng.random() < 0.35:
+            return {'c': c, 'op': 'cold_decode', 'args': {'id': k}}
+        if self.meta[k].get('has_refs') and rng.random() < 0.25:
+            return {'c': c, 'op': 'edit', 'args': {'id': k, 'attr': 'clear_offset()', 'value': None}}
         if kind == 'cycle':
             return {'c': c, 'op': 'cycle', 'args': {'id': k, 'n': rng.choice([1, 1, 2, 3, 4]),
                                                     'via': rng.choice(['text', 'text', 'dict'])}}
@@ -493,7 +499,8 @@ class WorldC11(World):
             obj = self.build(d)       # constructors are not C11's subject: a failure here is a harness matter
             self.obj[a['id']] = obj
             depth = self.depth(d)
-            self.meta[a['id']] = {'kind': d['k'], 'cycles': 0, 'depth': depth}
+            self.meta[a['id']] = {'kind': d['k'], 'cycles': 0, 'depth': depth,
+                                  'has_refs': d['k'] == 'References' or (d['k'] == 'StatMech' and bool(d.get('references')))}
             ctx.probe('class-' + d['k'])
             if depth >= 3:
                 ctx.probe('nested-depth>=3')
@@ -509,6 +516,16 @@ class WorldC11(World):
         obj = self.obj[a['id']]
         m = self.meta[a['id']]
         kind = m['kind']
+        if name == 'edit' and a['attr'] == 'clear_offset()':
+            refs = obj if kind == 'References' else getattr(obj, 'references', None)
+            if refs is None or not callable(getattr(refs, 'clear_offset', None)):
+                raise Skip()
+            refs.clear_offset()          # a documented mutator: the offsets are dropped until the next fit
+            ctx.probe('references-offsets-cleared')
+            m['edited'] = True
+            return 'cleared'
+        if name == 'cold_decode':
+            return self._cold_decode(obj, kind)
         if name == 'edit':
             if not hasattr(obj, a['attr']):
                 raise Skip()
@@ -576,6 +593,53 @@ class WorldC11(World):
             self.compare('%s second decode of the same dictionary' % kind, before, self.observe(o2), cls0, o2)
             return 'twice'
         raise Skip()
+
+    COLD_SCRIPT = (
+        "import sys, os, json\n"
+        "sys.path.insert(0, os.environ['SIMLAB_REPO'])\n"
+        "sys.path.insert(1, os.environ['SIMLAB_HOME'])\n"
+        "from pmutt.io.json import json_to_pmutt\n"              # the only pMuTT import a reader script needs
+        "obj = json.loads(sys.stdin.read(), object_hook=json_to_pmutt)\n"
+        "from simlab.worlds.c11 import WorldC11\n"
+        "g, i = WorldC11.observe(None, obj)\n"
+        "sys.stdout.write(json.dumps({'cls': type(obj).__name__, 'g': g, 'i': i}))\n")
+
+    def _cold_decode(self, obj, kind):
+        """The process that wrote the JSON text is gone; a fresh interpreter that has imported nothing but
+        pmutt.io.json decodes it (restart with only the durable text surviving)."""
+        import os
+        import subprocess
+        import sys
+        ctx = self.ctx
+        self.cold_done = True
+        ctx.probe('decode-in-a-fresh-interpreter')
+        before = json.loads(json.dumps(list(self.observe(obj))))
+        text = self.real(json.dumps, obj, cls=self.pj.pmuttEncoder, _what='json.dumps(%s, cls=pmuttEncoder)' % kind,
+                         _inv='encodes')
+        env = dict(os.environ)
+        env['SIMLAB_REPO'] = os.environ.get('SIMLAB_REPO', '/repo')
+        env['SIMLAB_HOME'] = os.path.dirname(os.path.dirname(os.path.dirname(os.path.abspath(__file__))))
+        p = subprocess.run([sys.executable, '-c', self.COLD_SCRIPT], input=text, env=env, capture_output=True, text=True,
+                           timeout=120)
+        if p.returncode != 0:
+            last = (p.stderr.strip().splitlines() or ['?'])[-1]
+            raise Violation('decodes', 'a fresh interpreter that imported only pmutt.io.json failed to decode the %s text: %s' % (
+                kind, last[:200]))
+        got = json.loads(p.stdout)
+        if got['cls'] != type(obj).__name__:
+            raise Violation('same-class', '%s decoded in a fresh interpreter (only pmutt.io.json imported): a %s came back as %s' % (
+                kind, type(obj).__name__, got['cls']))
+        g0, i0 = before
+        what = '%s decoded in a fresh interpreter' % kind
+        for nm in sorted(g0):
+            if nm not in got['g'] or not _same(g0[nm], got['g'][nm]):
+                raise Violation('same-getters', '%s: %s.%s gave %r before and %r after' % (
+                    what, kind, nm, _short(g0[nm]), _short(got['g'].get(nm, '<missing>'))))
+        for a in sorted(i0):
+            if a not in got['i'] or not _same_ident(i0[a], got['i'][a]):
+                raise Violation('same-attributes', '%s: %s.%s was %r, is %r' % (
+                    what, kind, a, _short(i0[a]), _short(got['i'].get(a, '<missing>'))))
+        return 'cold ' + got['cls']
 
     def _scramble(self, obj, depth=0, seen=None):
         """Re-bind numeric attributes of a decoded object graph to other values (no in-place mutation)."""
